@@ -534,6 +534,13 @@ class Fn:
                         return ("const", op[1], lits[0])
                     if lits:
                         return ("const", op[1], tuple(l["char"] if isinstance(l, dict) and "char" in l else (l["float"] if isinstance(l, dict) and "float" in l else l) for l in lits))
+                    val = v.get("val")
+                    if val is not None and not isinstance(val, dict):
+                        return ("const", op[1], val)       # named constant, evaluated by the extractor
+                    if isinstance(val, dict) and "char" in val:
+                        return ("const", "char", val["char"])
+                    if isinstance(val, dict) and "float" in val:
+                        return ("const", op[1], val["float"])
                     return ("const", op[1], "uneval:" + v["uneval"])
             return ("const", op[1], v)
         return ("unknown",)
